@@ -71,6 +71,9 @@ func newEnvState(c *pathCtx) *envState {
 	e.stdinCell = mk(3, "/dev/stdin")
 	e.files["/"] = &vnode{path: "/", isDir: true}
 	e.args = []string{"prog"}
+	if c.ex != nil && c.ex.opt.Args != nil {
+		e.args = c.ex.opt.Args
+	}
 	return e
 }
 
